@@ -265,7 +265,9 @@ def datetime_get(string):
         return default_values("datetime")
 
     if isinstance(string, dt.datetime):
-        return dt.datetime.strptime(string.strftime(FORMAT_DATETIME), FORMAT_DATETIME)
+        # Normalize without a detour via text: strftime does not zero pad
+        # years below 1000 on every platform and strptime then refuses the result.
+        return string.replace(microsecond=0, tzinfo=None)
 
     return dt.datetime.strptime(string, FORMAT_DATETIME)
 
